@@ -66,4 +66,8 @@ CHECKS = {
   "text": "CipherStream.tla: nonce++ after every Encrypt/Decrypt, ratchet at ROT; TLC checks FreshPair, LockStep, NonceBound with a small ROT; real XX and KK sessions exchange thousands of records with the two directions interleaved across several rotations (real ROT = 1000), hooks in cipherState.Encrypt/Decrypt/rotateKey report every (key fingerprint, nonce) and TLC validates the log; the wire is scanned for plaintext, the auth payload and repeated ciphertext blocks.",
   "note": "keys as 32-bit fingerprints; ChaCha20-Poly1305/HKDF trusted",
  },
+ "C14": {
+  "text": "GBNChunk.tla models Send's splitting and Recv's reassembly over the reliable packet FIFO established by C01, with deadlines able to fire between any two packets; TLC checks OneSendOneRecv/AllDelivered for all payload lengths 0..5, chunk sizes off/1/2/3 and sequences; real connections are driven with every length 0..3M+1 for every small chunk size, boundary and large payloads, mixed sequences under drop/duplicate/delay, and send/receive deadlines expiring at every packet boundary (call retried); TLC validates the Send/Recv call log (length + content hash). The send-deadline case is an open known finding.",
+  "note": "packet channel below assumed exactly-once/ordered (C01); content compared by length and a 31-bit SHA-256 prefix",
+ },
 }
